@@ -186,6 +186,9 @@ pub broadcast axiom fn axiom_ascii_numeric(c: char)
     ensures ('0' <= c <= '9') ==> #[trigger] char_is_numeric(c);
 pub broadcast axiom fn axiom_ascii_alphanumeric(c: char)
     ensures ('0' <= c <= '9' || 'a' <= c <= 'z' || 'A' <= c <= 'Z') ==> #[trigger] char_is_alphanumeric(c);
+// ASCII characters other than letters and digits are not alphanumeric (char::is_alphanumeric on ASCII)
+pub broadcast axiom fn axiom_ascii_not_alphanumeric(c: char)
+    ensures ((c as u32) < 128 && !('0' <= c <= '9' || 'a' <= c <= 'z' || 'A' <= c <= 'Z')) ==> !(#[trigger] char_is_alphanumeric(c));
 pub broadcast group axiom_ascii_char_classes { axiom_ascii_numeric, axiom_ascii_alphanumeric }
 
 #[verifier::external_body]
